@@ -47,7 +47,7 @@ ASSUMPTIONS = [
     "a scope constructed after its parent's completion already fired cannot delay that completion: only no-failure, once, stable and its own ordering are judged for it",
     "scopes constructed but never entered are not generated; relative order of sibling completions and the delay between last exit and callback (before quiescence) are unspecified",
 ]
-MINIMUMS = {"failed_enters": 300, "monitor:once": 20000, "monitor:after-subtree": 20000, "child_left_after_parent": 3000, "late_children": 300, "set:schedules": 4000, "async_callbacks": 2000, "spawns_attempted_while_the_scope_aborts": 24}
+MINIMUMS = {"failed_enters": 300, "monitor:once": 20000, "monitor:after-subtree": 20000, "child_left_after_parent": 3000, "late_children": 300, "set:schedules": 4000, "async_callbacks": 2000, "spawns_attempted_while_the_scope_aborts": 24, "scopes_whose_resources_could_not_be_collected": 50}
 JOBS = {"quick": 4, "thorough": 16}
 LEVEL_TEXT = (
     "All trees of up to 3 nodes x node kinds x placements are run under every linearisation of their gated enters/exits (DFS, capped), 4-5 node trees with mixed callback kinds "
@@ -104,7 +104,13 @@ def build(tree: dict[str, Any]) -> list[dict[str, Any]]:
         if (tree.get("fails") or [False] * n)[i] and kinds[i] == "ascope" and not kids[i]:
             # entering this scope fails (a disposable raises in __aenter__, possibly after suspending): the scope was constructed
             # under its parent and is left at once - the parent must still be able to complete
-            b["disposables"] = [{"yield": [], "enter": ("raise", "gate-raise", "raise-cancelled", "gate-raise-cancelled")[(i + n + len(kids[0])) % 4], "exit": "ok"}]
+            how = ("raise", "gate-raise", "raise-cancelled", "gate-raise-cancelled", "configuration")[(i + n + len(kids[0])) % 5]
+            if how == "configuration":
+                # ... or the iterable of its resources fails while it is collected (wherever the library collects it)
+                b["disposables"] = [{"yield": [], "enter": "ok", "exit": "ok"}]
+                b["disposables_container"] = "raising-generator"
+            else:
+                b["disposables"] = [{"yield": [], "enter": how, "exit": "ok"}]
         return b
 
     return [node(0)]
@@ -251,6 +257,7 @@ def judge(R: Recorder, tree: dict[str, Any], chooser: Chooser, out: dict[str, An
                       detail=f"{name}: inside callback (is_completed, time)={in_cb}, read again later {later}", case=rec)
     failed = {b: e for b, e in W.caught.items() if e is not None and b not in failed_enter}
     R.count("failed_enters", len([b for b in failed_enter if W.caught.get(b) is not None]))
+    R.count("scopes_whose_resources_could_not_be_collected", sum(1 for e in ev if e[0] == "disposables-config-error"))
     R.monitor("no-exit-failure", not failed and out.get("program") == "ok", where={**w0, "kind": "exit-raised", "error": next((type(e).__name__ for e in failed.values()), None)},
               detail=f"blocks raised {failed!r} program={out.get('program')}; events={ev}", case=rec)
     if R.want_sample("late" if late else "tree") and left_after_parent:
